@@ -313,7 +313,9 @@ def stepS (psBefore psAfter : PState) (ss : SState) (stepIdx : Nat) (toks : List
   | ["transpose", v] =>
     match sObj psBefore ss v with
     | some (id, o) =>
-      let wasPending := match o.pending with | .none => false | _ => true
+      -- only a transpose S *knows* to be pending makes a claim about the storage order afterwards (`ambiguous`:
+      -- the second T may have been the undo of the first, then nothing moves)
+      let wasPending := match o.pending with | .one _ => true | _ => false
       fin (ss.setObj id (some { o with pending := .none, ordered := (wasPending && !o.isView) || o.ordered, pat := [] })) (some "r=ok")
     | _ => fin ss none
   | ["at", v, coords] =>
@@ -377,6 +379,22 @@ def stepS (psBefore psAfter : PState) (ss : SState) (stepIdx : Nat) (toks : List
         fin ({ ss with objs := (ss.sync newId).objs.push (some o') }) (some "r=ok")
       | none => fin ss none
     | _ => fin ss none
+  | ["apiTranspose", v, axes] =>
+    -- a fresh tensor presenting the permuted array, nothing pending
+    match sObj psBefore ss v, parseIntList axes with
+    | some (_, o), some ax =>
+      let n := o.idx.shape.length
+      let ax := if ax.isEmpty then (rangeI n).reverse else ax
+      if !isPerm ax n then fin ss none else
+      match o.elems ss, (⟨o.idx.shape, List.range o.idx.elems.length⟩ : LA Nat).transpose (ax.map Int.toNat) with
+      | some es, some idx' =>
+        if mres != "ok" then fin ss (some "r=ok") else
+        let root := ss.store.size
+        let ss := { ss with store := ss.store.push es.toArray }
+        let o' : SObj := { root := root, idx := idx' }
+        fin ({ ss with objs := (ss.sync newId).objs.push (some o') }) (some "r=ok")
+      | _, _ => fin ss none
+    | _, _ => fin ss none
   | ["safeT", v, axes] =>
     match sObj psBefore ss v, parseIntList axes with
     | some (_, o), some ax =>
